@@ -43,6 +43,9 @@ type scenario struct {
 	label   string
 	plugins []pluginSpec
 	coreOK  bool
+	// compileFails: the Thrift file does not compile (no model comparison: whether plugins are started at
+	// all before that is the host's choice; whatever was started is owed the whole conversation)
+	compileFails bool
 	hang    bool // the generator expects the host to block (short timeout)
 }
 
@@ -225,6 +228,9 @@ func runScenario(sc scenario, idx int) runResult {
 	if !sc.coreOK {
 		prog = genFailProgram
 	}
+	if sc.compileFails {
+		prog = "struct A { 1: optional NoSuchType f }\nservice Svc { void f() }\n"
+	}
 	os.WriteFile(filepath.Join(dir, "src", "root.thrift"), []byte(prog), 0o644)
 	args := []string{"--out", filepath.Join(dir, "out"), "--pkg-prefix", "x"}
 	keys := sc.keys()
@@ -337,6 +343,51 @@ func (res runResult) answer(sc scenario) string {
 		fmt.Fprintf(&sb, "; %s %s", b01(named(res.stderr, p.name)), res.views[i])
 	}
 	return sb.String()
+}
+
+// c16CompileFails: the host fails for a reason that has nothing to do with plugins (the file does not
+// compile). It must exit with a failure, and a plugin it has started by then — if any — must still get
+// its goodbye after a successful handshake, see its pipes closed and be reaped.
+func c16CompileFails(c *checker) {
+	for n := 1; n <= 3; n++ {
+		sc := scenario{label: fmt.Sprintf("compile-fails x%d", n), coreOK: true, compileFails: true}
+		for i := 0; i < n; i++ {
+			sc.plugins = append(sc.plugins, conforming(pluginNames[i]))
+		}
+		res := runScenario(sc, caseCounter.next())
+		op := sc.label
+		ans := fmt.Sprintf("exit=%d timedOut=%v views=%v", res.exit, res.timedOut, res.views)
+		c.rep.Case(op, true)
+		c.rep.Hist("how", "compile-fails")
+		fail := func(kind, why string) {
+			c.oracle("C16 "+kind, op, ans, sc.label+": "+why+" | stderr: "+firstLine(res.stderr))
+		}
+		if res.timedOut || res.exit == -1 {
+			fail("host blocked", "the host did not exit")
+			continue
+		}
+		if res.exit == 0 {
+			fail("exit status 0 although compilation failed", "")
+		}
+		if len(res.survivors) > 0 {
+			fail("surviving child process", fmt.Sprint("plugin processes still running after the host exited: ", res.survivors))
+		}
+		for k, p := range sc.plugins {
+			v := res.views[k]
+			if v == "" {
+				continue // never started: fine
+			}
+			if !res.reaped[k] {
+				fail("plugin not reaped", p.name+" had not finished when the host exited (no Wait): "+v)
+			}
+			if strings.Contains(v, "handshake") && strings.Count(v, "goodbye") != 1 {
+				fail("goodbye count", p.name+" completed its handshake and got "+fmt.Sprint(strings.Count(v, "goodbye"))+" goodbye requests: "+v)
+			}
+			if !strings.Contains(v, "eof") {
+				fail("pipes not closed", p.name+" never saw EOF on its stdin: "+v)
+			}
+		}
+	}
 }
 
 // ---- replies and faults ----
@@ -836,10 +887,11 @@ func runC16(c *checker, r *rng.R) {
 	c16Check(c, scs, "blocking-plugin")
 	c.flush()
 
+	c16CompileFails(c)
 	c16PluginMain(c, r)
 	c16Frames(c, r)
 	c.flush()
-	c.rep.Rule = "scenarios = the real thriftrw binary + 1..3 fake plugins, each with a script (bytes written per request in given write calls, exit points, exit status): conforming; one plugin x {handshake, generate, goodbye} x {ok in 1-byte/random writes, exception envelope, garbage frame, empty frame, wrong envelope type, exit before/after reading, oversized prefixes, truncation at EVERY byte offset, handshake/generate field variants}; 2..3 plugins with independent random faults; 2..3 plugins of which two or three are given under the SAME name (separate processes); blocking plugins; + plugin.Main over in-memory pipes under random segmentations; + frame Reader/Writer under random segmentations and a lowered fast-path threshold. Compared: per-plugin event log, exit status, written files, plugins named on stderr, request bytes. non-trivial = some fault or >1 plugin; distinct by script"
+	c.rep.Rule = "scenarios = the real thriftrw binary + 1..3 fake plugins, each with a script (bytes written per request in given write calls, exit points, exit status): conforming; one plugin x {handshake, generate, goodbye} x {ok in 1-byte/random writes, exception envelope, garbage frame, empty frame, wrong envelope type, exit before/after reading, oversized prefixes, truncation at EVERY byte offset, handshake/generate field variants}; 2..3 plugins with independent random faults; 2..3 plugins of which two or three are given under the SAME name (separate processes); blocking plugins; a Thrift file that does not compile (whatever was started by then is owed the whole conversation); + plugin.Main over in-memory pipes under random segmentations; + frame Reader/Writer under random segmentations and a lowered fast-path threshold. Compared: per-plugin event log, exit status, written files, plugins named on stderr, request bytes. non-trivial = some fault or >1 plugin; distinct by script"
 	c.rep.Notes = append(c.rep.Notes,
 		"proved: host automaton properties over arbitrary plugin byte streams; observed only: os/exec, pipes, process reaping (log must end in `exit` when the host exits; no surviving pids), goroutine scheduling of concurrent.Range")
 }
